@@ -266,7 +266,7 @@ func (sf *obfs4ServerFactory) WrapConn(conn net.Conn) (net.Conn, error) {
 		iatDist = probdist.New(sf.iatSeed, 0, maxIATDelay, *biasedDist)
 	}
 
-	c := &obfs4Conn{conn, true, lenDist, iatDist, sf.iatMode, bytes.NewBuffer(nil), bytes.NewBuffer(nil), make([]byte, consumeReadSize), nil, nil}
+	c := &obfs4Conn{conn, true, lenDist, iatDist, sf.iatMode, bytes.NewBuffer(nil), bytes.NewBuffer(nil), make([]byte, consumeReadSize), false, nil, nil}
 
 	startTime := time.Now()
 
@@ -290,6 +290,10 @@ type obfs4Conn struct {
 	receiveBuffer        *bytes.Buffer
 	receiveDecodedBuffer *bytes.Buffer
 	readBuffer           []byte
+
+	// receivePending is set when receiveBuffer holds data that trailed the
+	// handshake and has not been run through the decoder yet.
+	receivePending bool
 
 	encoder *framing.Encoder
 	decoder *framing.Decoder
@@ -316,7 +320,7 @@ func newObfs4ClientConn(conn net.Conn, args *obfs4ClientArgs) (*obfs4Conn, error
 	}
 
 	// Allocate the client structure.
-	c := &obfs4Conn{conn, false, lenDist, iatDist, args.iatMode, bytes.NewBuffer(nil), bytes.NewBuffer(nil), make([]byte, consumeReadSize), nil, nil}
+	c := &obfs4Conn{conn, false, lenDist, iatDist, args.iatMode, bytes.NewBuffer(nil), bytes.NewBuffer(nil), make([]byte, consumeReadSize), false, nil, nil}
 
 	// Start the handshake timeout.
 	deadline := time.Now().Add(clientHandshakeTimeout)
@@ -369,6 +373,7 @@ func (conn *obfs4Conn) clientHandshake(nodeID *ntor.NodeID, peerIdentityKey *nto
 			return err
 		}
 		_ = conn.receiveBuffer.Next(n)
+		conn.receivePending = conn.receiveBuffer.Len() > 0
 
 		// Use the derived key material to initialize the link crypto.
 		okm := ntor.Kdf(seed, framing.KeyLength*2)
